@@ -42,6 +42,9 @@ sympy expressions over symbols, exact rationals (float constants are converted e
     `urem/srem` are `e - d*udivN(e,d)` (the Div/Mod axiom); `lshr` by a constant is `udivN(e, 2^k)`;
     `and` with a low mask is the corresponding remainder; other and/or/xor are commutative atoms
     `orN(...)`, `andN(...)`, `xorN(...)`; variable shifts / funnel shifts are opaque atoms `op_*`;
+  * float bit patterns: `bitcast float -> iN` (scalar or per lane of a vector) is the atom `bits_f32_i32(t)` that remembers t;
+    `& signmask` gives `signbit32(t)`, `| bits(c)` (c >= 0 constant) on that gives, cast back, `copysign(c, t)`;
+    `& ~signmask` is `fabs(t)`, `^ signmask` is `-t`; casting an unmodified pattern back returns t;
   * extensions: each integer value carries flags *sx* / *ux* ("the polynomial's integer value IS the
     signed / unsigned value of the residue") and a magnitude bound.  An input symbol denotes its *signed*
     value (`summary(nonneg=[...])` declares inputs that are also non-negative).  `sext`/`zext` of a value
@@ -1664,6 +1667,18 @@ class UndefV:
 UNDEF = UndefV()
 
 
+def float_from_bits(c, bits):
+    """exact rational value of the IEEE float with that bit pattern (None for inf / NaN)"""
+    c &= (1 << bits) - 1
+    try:
+        d = struct.unpack('>f', struct.pack('>I', c))[0] if bits == 32 else struct.unpack('>d', struct.pack('>Q', c))[0]
+    except struct.error:
+        return None
+    if d != d or d in (float('inf'), float('-inf')):
+        return None
+    return const_fraction(Fraction(d))
+
+
 def const_int(bits, c):
     if bits == 1:
         return BoolV(TRUE if c & 1 else FALSE)
@@ -1999,6 +2014,16 @@ class Interp:
             if v.kind == 'i' and v.bits == ty[1]:
                 if v.term.is_Integer and v.term == 0:
                     return FpV(ty[1], sp.Integer(0))
+                if v.org is not None and v.org[0] == 'fbits':
+                    return FpV(ty[1], v.org[1])                      # bits(t) reinterpreted back
+                if v.org is not None and v.org[0] == 'copysign':
+                    return FpV(ty[1], atom('copysign', v.org[1], v.org[2]))
+                if v.org is not None and v.org[0] == 'signof':
+                    return FpV(ty[1], atom('copysign', sp.Integer(0), v.org[1]))
+                if v.term.is_Integer and ty[1] in (32, 64):
+                    fv = float_from_bits(int(v.term), ty[1])
+                    if fv is not None:
+                        return FpV(ty[1], fv)
                 return FpV(ty[1], atom('bits_i%d_f%d' % (v.bits, ty[1]), v.term))
         if ty[0] == 'int':
             if v.kind in ('i', 'b') and v.bits == ty[1]:
@@ -2006,7 +2031,7 @@ class Interp:
             if v.kind == 'f' and v.bits == ty[1]:
                 if v.term == 0:
                     return const_int(ty[1], 0)
-                return IntV(ty[1], atom('bits_f%d_i%d' % (v.bits, ty[1]), v.term))
+                return IntV(ty[1], atom('bits_f%d_i%d' % (v.bits, ty[1]), v.term), org=('fbits', v.term))
             if v.kind == 'b' and ty[1] == 8:
                 return IntV(8, mk_sel(v.cond, sp.Integer(1), sp.Integer(0)), sx=True, ux=True, mag=1)
             if v.kind == 'i' and v.bits == 8 and ty[1] == 1:
@@ -2254,6 +2279,11 @@ class Interp:
             q = atom('udiv%d' % N, a, b)
             if a.is_Integer and b.is_Integer and x.ux and y.ux and b != 0:
                 q = sp.Integer(int(a) // int(b))
+            elif not b.is_Number:
+                # (b * udiv(e, b)) / b == udiv(e, b): the product is <= e, so it cannot wrap
+                q0 = sp.cancel(sp.expand(a) / b)
+                if is_app(q0, 'udiv%d' % N) and sp.expand(q0.args[1] - norm(b)) == 0:
+                    q = q0
             if op == 'udiv':
                 return IntV(N, q, sx=(x.ux and x.mag is not None and x.mag <= N - 1), ux=True, mag=x.mag if x.ux else N)
             ok = x.ux and y.ux
@@ -2265,6 +2295,23 @@ class Interp:
             ok = x.sx and y.sx
             return IntV(N, a - b * q, sx=ok, ux=False, mag=y.mag if ok else None)
         if op in ('and', 'or', 'xor'):
+            # sign-bit manipulation of a float's bit pattern: bits(t) & signmask, | bits(|c|), ^ signmask, & ~signmask
+            for u, v in ((x, y), (y, x)):
+                if v.term.is_Integer and u.org is not None and u.org[0] in ('fbits', 'signof') and N in (32, 64):
+                    c = int(v.term) & ((1 << N) - 1)
+                    smask = 1 << (N - 1)
+                    if u.org[0] == 'fbits':
+                        t = u.org[1]
+                        if op == 'and' and c == smask:
+                            return IntV(N, atom('signbit%d' % N, t), org=('signof', t))
+                        if op == 'and' and c == smask - 1:
+                            return IntV(N, atom('bits_f%d_i%d' % (N, N), atom('fabs', t)), org=('fbits', atom('fabs', t)))
+                        if op == 'xor' and c == smask:
+                            return IntV(N, atom('bits_f%d_i%d' % (N, N), -t), org=('fbits', -t))
+                    elif op == 'or' and c < smask:
+                        mag = float_from_bits(c, N)
+                        if mag is not None:
+                            return IntV(N, catom('or%d' % N, a, b), org=('copysign', mag, u.org[1]))
             for u, v in ((x, y), (y, x)):
                 if v.term.is_Integer:
                     c = int(v.term)
@@ -2418,6 +2465,10 @@ class Interp:
                 return self.convert_loaded(x, tty)
             if fty[0] == 'vec' and tty[0] == 'vec' and self.L.resolve(fty[2]) == self.L.resolve(tty[2]):
                 return x
+            if fty[0] == 'vec' and tty[0] == 'vec' and fty[1] == tty[1]:
+                fe, te = self.L.resolve(fty[2]), self.L.resolve(tty[2])
+                if fe[0] in ('int', 'fp') and te[0] in ('int', 'fp') and fe[1] == te[1]:
+                    return AggV([UNDEF if e.kind == 'u' else self.convert_loaded(e, te) for e in x.elems])
             raise Undecided('bitcast %s -> %s' % (type_str(fty), type_str(tty)))
         if op == 'addrspacecast':
             return x
